@@ -14,6 +14,9 @@
  * All slots are private to the thread.  The library is used exactly as property C20 allows.
  */
 #include <pthread.h>
+#include <sys/types.h>
+#include <sys/wait.h>
+#include <unistd.h>
 #include <stdio.h>
 #include <stdlib.h>
 #include <string.h>
@@ -107,6 +110,7 @@ typedef struct
  * (plain malloc/free) and refuse the failat-th request a program makes inside core API calls - the calls for which a single
  * refused request must fail cleanly (C08); utility calls are never faulted (the library does not promise to survive that). */
 static int use_hooks = 0;
+static int fail_in_utils = 0;   /* refuse requests inside cJSON_Utils calls too (only kept if every program survives that alone) */
 static __thread pstate_t *cur_state = NULL;
 static __thread int in_core = 0;
 
@@ -149,7 +153,7 @@ static int step_program(const prog_t *p, pstate_t *st)
         return 0;
     }
     cur_state = st;
-    in_core = (p->ops[i].op != 'U');
+    in_core = (p->ops[i].op != 'U') || fail_in_utils;
     {
         const op_t *o = &p->ops[i];
         int a = (int)(o->a % SLOTS);
@@ -572,6 +576,11 @@ int main(int argc, char **argv)
             free(hex);
             continue;
         }
+        if (sscanf(line, "failutils %d", &fail_in_utils) == 1)
+        {
+            free(hex);
+            continue;
+        }
         {
             int ft;
             long fk;
@@ -625,6 +634,51 @@ int main(int argc, char **argv)
         hooks.malloc_fn = hook_malloc;
         hooks.free_fn = hook_free;
         cJSON_InitHooks(&hooks);
+    }
+    if (use_hooks && fail_in_utils)
+    {
+        /* The library does not promise that utility calls survive a refused allocation.  Whether these programs do is
+         * found out in a child process (so that this process stays cold): if a program dies alone, there is nothing to
+         * compare a concurrent run with, and the case gets no verdict. */
+        pid_t pid;
+        int st = 0;
+        int fds[2];
+        char ok = 0;
+        fflush(stdout);
+        if (pipe(fds) != 0)
+        {
+            return 2;
+        }
+        pid = fork();
+        if (pid == 0)
+        {
+            close(fds[0]);
+            for (i = 0; i < nthreads; i++)
+            {
+                (void)run_program(&progs[i]);
+            }
+            /* the exit status says nothing (a sanitizer may exit 0 after a fatal signal): survival is reported explicitly */
+            if (write(fds[1], "k", 1) != 1)
+            {
+                _exit(3);
+            }
+            _exit(0);
+        }
+        close(fds[1]);
+        if (pid < 0 || read(fds[0], &ok, 1) != 1 || ok != 'k')
+        {
+            ok = 0;
+        }
+        close(fds[0]);
+        if (pid > 0)
+        {
+            (void)waitpid(pid, &st, 0);
+        }
+        if (!ok)
+        {
+            printf("SOLO-FAILS (a program does not survive its refused allocation when running alone: no verdict)\n");
+            return 0;
+        }
     }
     /* The FIRST concurrent round runs before anything else has touched the library in this process, so that lazily
      * initialised or self-tuning shared state is first used concurrently (a warm-up in the main thread would hide it).
